@@ -137,7 +137,8 @@ UNITS["C14"] = [
 
 UNITS["C09"] = [
     dict(kind="kani", name="c09_pack", crate="kani/c09_pack", use_repo_lock=True,
-         harnesses=[dict(name="width_rule_i64", complete=True, bound="none: full i64 domain, the only loop is the 8-iteration reference loop (unwinding assertions on)")],
+         harnesses=[dict(name="width_rule_i64", complete=True, bound="none: full i64 domain, the only loop is the 8-iteration reference loop (unwinding assertions on)"),
+                    dict(name="width_rule_i32", complete=True, bound="none: full i32 domain")],
          trusted=["real `bytes` crate from the cargo registry; SqliteValue Text/Blob payload types replaced by String/Vec<u8> in this harness crate"],
          assumptions=["the extension's packing rule is taken from its documentation: minimal big-endian width of the value seen as u64"]),
     dict(kind="verus", name="c09_packfmt", template="specs/c09_packfmt.vrs",
@@ -152,7 +153,19 @@ UNITS["C09"] = [
                       "reservation rule: an up-front reservation must be <= 65536 elements or <= remaining_bytes/8 elements"]),
 ]
 
+UNITS["C07"] = [
+    dict(kind="verus", name="c07_broadcast", template="specs/c07_broadcast.vrs",
+         under_contract=["frag_chunker_args", "frag_broadcast_msg"], vacuity=["frag_chunker_args", "frag_broadcast_msg"],
+         assumptions=["the rows come from `SELECT … FROM crsql_changes WHERE db_version = ? AND site_id = crsql_site_id() ORDER BY seq ASC` (not interpreted)",
+                      "tokio::spawn / tx_bcast.send deliver the constructed message (not decided)"]),
+    dict(kind="structural", name="c07_sequence", check="local_write_sequence", file="crates/klukai-agent/src/api/public/mod.rs", fn="make_broadcastable_changes",
+         trusted=["rusqlite Transaction: nothing is visible/durable before commit(); `?` returns early; dropping the transaction rolls back"]),
+    dict(kind="structural", name="c07_insert_local", check="insert_local_changes", file="crates/klukai-types/src/change.rs", fn="insert_local_changes",
+         trusted=["crsql_peek_next_db_version() is the previous db_version + 1 (cr-sqlite)", "MAX(seq) IS NULL exactly when the transaction changed nothing"]),
+]
+
 NOTES = {
+    "C07": "sequencing/dominance obligations on the real text of the local write path + the broadcast message construction fragment; rollback itself is SQLite's",
     "C09": "totality of the hand-written decoders (no reachable panic, bounded reservations, UTF-8), packed-key width rule and round trip",
     "C14": "update-feed kernels: causal-length cache filter (latest state wins, older-after-newer dropped), cache trim keeps newest, delete/update parity",
     "C10": "seen-cache kernel of handle_changes: suppression test, drop-oldest eviction, cache insertion; cleared-decision of process_multiple_changes",
